@@ -102,7 +102,8 @@ KStep(st, c, floor) == IF c \in {"E", "D"} THEN st
 \* state machine: one CLI run over a list of entries
 \* ---------------------------------------------------------------------------------------------------
 VARIABLES vall,      \* the entry names of the run (constant during a behaviour)
-          vopt,      \* [preserve, explicit, chain, form, preout]
+          vopt,      \* [preserve, explicit, chain, form, preout, skip, unread]; unread = positions of entries whose data cannot be read
+                     \* (listed but absent from the archive, or corrupted)
           vpend,     \* names not yet processed
           vst,       \* "idle" | "mkdir" | "write" | "done" | "aborted"
           vtarget,   \* raw target path of the current entry
@@ -116,8 +117,11 @@ vars == <<vall, vopt, vpend, vst, vtarget, vrest, vstack, vfloor, vdirs, vfiles,
 
 InitFs(preout) == PcPrefixes(Cwd) \cup PcPrefixes(StandInRoot) \cup {Drive} \cup (IF preout THEN {OutAbs} ELSE {})
 
+\* single archive without --skip-errors: extract_with_config reads every requested entry first and fails as a whole on the first
+\* unreadable one -- nothing is written at all
+EarlyAbortOf(names, opt) == ~opt.chain /\ ~opt.skip /\ \E i \in opt.unread : i <= Len(names) /\ ~(~opt.explicit /\ names[i] = <<"E">>)
 InitWith(names, opt) ==
-    /\ vall = names /\ vopt = opt /\ vpend = names /\ vst = "idle"
+    /\ vall = names /\ vopt = opt /\ vpend = names /\ vst = IF EarlyAbortOf(names, opt) THEN "aborted" ELSE "idle"
     /\ vtarget = <<>> /\ vrest = <<>> /\ vstack = <<>> /\ vfloor = 0
     /\ vdirs = InitFs(opt.preout) /\ vfiles = {} /\ vtouched = {} /\ verrs = 0
 
@@ -128,10 +132,19 @@ ListfileDrop ==
     /\ UNCHANGED <<vall, vopt, vst, vtarget, vrest, vstack, vfloor, vdirs, vfiles, vtouched, verrs>>
 
 Dropped(n) == ~vopt.explicit /\ n = <<"E">>
+Pos == Len(vall) - Len(vpend) + 1              \* position of the entry at the head of vpend
+UnreadHead == Pos \in vopt.unread
+
+\* the Err arm of both extraction loops: the entry's data could not be read (with --skip-errors, or from a patch chain):
+\* it is counted as failed and NOTHING is done with its name
+ReadFail ==
+    /\ vst = "idle" /\ vpend # <<>> /\ ~Dropped(Head(vpend)) /\ UnreadHead
+    /\ vpend' = Tail(vpend) /\ verrs' = verrs + 1
+    /\ UNCHANGED <<vall, vopt, vst, vtarget, vrest, vstack, vfloor, vdirs, vfiles, vtouched>>
 
 \* intended behaviour: the entry is refused before any path is built
 SkipGuarded ==
-    /\ vst = "idle" /\ vpend # <<>> /\ ~Dropped(Head(vpend))
+    /\ vst = "idle" /\ vpend # <<>> /\ ~Dropped(Head(vpend)) /\ ~UnreadHead
     /\ Guard /\ BadForGuard(Head(vpend))
     /\ vpend' = Tail(vpend) /\ verrs' = verrs + 1
     /\ UNCHANGED <<vall, vopt, vst, vtarget, vrest, vstack, vfloor, vdirs, vfiles, vtouched>>
@@ -146,12 +159,12 @@ BeginWith(n) ==
     /\ UNCHANGED <<vall, vopt, vpend, vdirs, vfiles, vtouched, verrs>>
 \* as coded: only entries made of Normal / CurDir components get this far
 Begin ==
-    /\ vst = "idle" /\ vpend # <<>> /\ ~Dropped(Head(vpend))
+    /\ vst = "idle" /\ vpend # <<>> /\ ~Dropped(Head(vpend)) /\ ~UnreadHead
     /\ ~BadForGuard(Head(vpend))
     /\ BeginWith(Head(vpend))
 \* DEVIATION (the code before 97c8245): an entry with a bad component is joined like any other
 BeginUnguarded ==
-    /\ vst = "idle" /\ vpend # <<>> /\ ~Dropped(Head(vpend))
+    /\ vst = "idle" /\ vpend # <<>> /\ ~Dropped(Head(vpend)) /\ ~UnreadHead
     /\ ~Guard /\ BadForGuard(Head(vpend))
     /\ BeginWith(Head(vpend))
 
@@ -213,7 +226,7 @@ Finish ==
     /\ vst' = "done"
     /\ UNCHANGED <<vall, vopt, vpend, vtarget, vrest, vstack, vfloor, vdirs, vfiles, vtouched, verrs>>
 
-Next == ListfileDrop \/ SkipGuarded \/ Begin \/ BeginUnguarded \/ MkdirStep \/ MkdirFail \/ MkdirDone \/ WriteFile \/ WriteFail \/ Finish
+Next == ListfileDrop \/ ReadFail \/ SkipGuarded \/ Begin \/ BeginUnguarded \/ MkdirStep \/ MkdirFail \/ MkdirDone \/ WriteFile \/ WriteFail \/ Finish
 
 \* ---------------------------------------------------------------------------------------------------
 \* the property, and what TLC establishes about the two variants
@@ -259,12 +272,33 @@ AbortsAlone(cs, opt, guard) ==
                 ELSE [st |-> <<>>, dirs |-> InitFs(opt.preout), new |-> {}]
        IN ~WriteOkIn(t, m.dirs)
 
+\* The harness's concretisation of an abstract name (i0 = position in the archive, 0-based) in the spelling used by the trace's
+\* `touched` field and by the generator's decoy paths; a leading separator is redirected to the sandbox's stand-in root.
+Conc(k, i0, last) == CASE k = "a" -> "a#" \o ToString(i0)
+                       [] k = "U" -> "U#" \o ToString(i0)
+                       [] k = "L" -> "L#" \o ToString(i0)
+                       [] k = "C" -> IF last THEN "C:f#" \o ToString(i0) ELSE "C:"
+                       [] k = "T" -> "..."
+                       [] k = "Q" -> "...."
+                       [] k = "S" -> ".. "
+                       [] OTHER   -> k
+ConcName(n, i0) == LET cs == [j \in 1..Len(n.c) |-> Conc(n.c[j], i0, j = Len(n.c))] IN
+                   IF HasRoot(n.c) THEN <<"E">> \o StandInRoot \o Tail(cs) ELSE cs
+\* where the unguarded deviation would write this entry's file (at most one path): the place to plant a decoy
+DeviationTarget(cs, opt) ==
+    IF ~opt.explicit /\ cs = <<"E">> THEN {}
+    ELSE LET t == Target(cs, opt.preserve, opt.form)
+             m == IF RsHasParent(t) THEN MkdirAll(RsParent(t), InitFs(opt.preout))
+                  ELSE [st |-> <<>>, dirs |-> InitFs(opt.preout), new |-> {}]
+         IN IF WriteOkIn(t, m.dirs) THEN {WrittenPathIn(t, m.dirs)} ELSE {}
+
 SingleEntry == Len(vall) = 1
 Terminal == vst \in {"done", "aborted"}
 \* deviation: an escape happens exactly for the characterised entries (single-entry runs from a clean fs)
+Readable1 == 1 \notin vopt.unread
 EscapeCharacterised ==
-    SingleEntry => /\ Escaped => EscapesUnguarded(vall[1], vopt.preserve, vopt.explicit)
-                   /\ Terminal => (Escaped <=> EscapesUnguarded(vall[1], vopt.preserve, vopt.explicit))
+    SingleEntry => /\ Escaped => (Readable1 /\ EscapesUnguarded(vall[1], vopt.preserve, vopt.explicit))
+                   /\ Terminal => (Escaped <=> (Readable1 /\ EscapesUnguarded(vall[1], vopt.preserve, vopt.explicit)))
 \* deviation, multi-entry: whoever escapes is a characterised entry of the run
 EscapeOnlyByCharacterised ==
     Escaped => \E i \in 1..Len(vall) : EscapesUnguarded(vall[i], vopt.preserve, vopt.explicit)
@@ -274,10 +308,14 @@ GuardCoversEscapes == \A i \in 1..Len(vall) :
 \* without --preserve-paths even the deviation is contained
 FlattenContained == ~vopt.preserve => Contained
 \* the fold and the machine agree (single entry, terminal state)
-PredictionMatchesMachine == (SingleEntry /\ Terminal) => vtouched = PredictTouched(vall[1], vopt, Guard)
+PredictionMatchesMachine == (SingleEntry /\ Terminal) =>
+                            vtouched = IF Readable1 THEN PredictTouched(vall[1], vopt, Guard) ELSE {}
+\* an unreadable entry never touches anything, whatever its name (the Err arm does not build a path)
+UnreadTouchesNothing == (SingleEntry /\ ~Readable1) => vtouched = {}
 \* a single entry stops the run exactly when AbortsAlone says so (what the case generator relies on when
 \* it packs the other names into groups)
-AbortCharacterised == (SingleEntry /\ Terminal) => ((vst = "aborted") <=> AbortsAlone(vall[1], vopt, Guard))
+AbortCharacterised == (SingleEntry /\ Terminal) =>
+                      ((vst = "aborted") <=> (EarlyAbortOf(vall, vopt) \/ (Readable1 /\ AbortsAlone(vall[1], vopt, Guard))))
 \* every failed / refused entry is accounted for, nothing is touched after an abort
 TypeOK == /\ vst \in {"idle", "mkdir", "write", "done", "aborted"}
           /\ vtouched \subseteq (vdirs \cup vfiles)
